@@ -140,7 +140,7 @@ def _run(case, scratch):
                     viol.append({"kind": "reader_raises_after_crash", "msg": f"attempt {attempt}: {type(e).__name__}: {str(e)[:200]}", "facts": {"torn_final_file": bool(final_names)}, "sub": sub})
                     break
                 if not same(got, ref):
-                    viol.append({"kind": "truncated_table_silently_used", "msg": f"attempt {attempt}: table shape {np.asarray(got).shape} instead of {ref.shape}", "facts": {"torn_final_file": bool(final_names)}, "sub": sub})
+                    viol.append({"kind": "truncated_table_silently_used", "msg": f"attempt {attempt}: table shape {np.asarray(got).shape} (expected {ref.shape})" + (f", first differing entry {np.asarray(got)[np.asarray(got) != ref][:1].tolist()} vs {ref[np.asarray(got) != ref][:1].tolist()}" if np.asarray(got).shape == ref.shape else ""), "facts": {"torn_final_file": bool(final_names)}, "sub": sub})
                     break
             if cut is not None:
                 keys.append(f"{n}|{case.get('chunk')}|{i}|{cut}")
